@@ -2005,6 +2005,15 @@ def chk_replace_and_nested(ctx):
         ctx.cov.hit("replace+nested:" + kind)
 
 
+
+def prepare(ctx):
+    """Translator tie (see gen_tie.py): validate_params of the eight elementary classes and BaseART's __init__ /
+    __getattr__ / __setattr__ / get_params / set_params are re-translated to Lean on every run (harness/artv/qtrans.py)
+    and proved equal to the parameter-protocol model the C19 theorems are about"""
+    from .gen_tie import gen_prepare, extra_theorems
+    from .. import qtrans
+    gen_prepare(ctx, extra_theorems("qtrans"), qtrans.COVERS)
+
 def run(ctx):
     ctx.trusted += ["Python object graphs (deepcopy, pickle, sklearn.clone, `fit(...) is est`, instance independence, "
                     "aliasing of caller arrays) are NOT modelled in Lean: clauses f–j and the compound classes are "
